@@ -1,6 +1,7 @@
 import TddaVerif.Drv.Util
 import TddaVerif.Model.Gentest
 import TddaVerif.Model.GentestExcl
+import TddaVerif.Model.GentestScript
 open Lean TddaVerif.Drv TddaVerif.Gentest
 
 namespace TddaVerif.Drv.Gt
@@ -10,6 +11,11 @@ def kindStr : Option Kind → String
 
 def handle (op : String) (j : Json) : Option (R Json) :=
   match op with
+  | "gt.well_ordered" => some do
+      let parts ← asList (fun e => do
+          pure ({ defines := ← asList asChars (← fld e "defines"), uses := ← asList asChars (← fld e "uses") }
+                : TddaVerif.GentestScript.Part)) (← fld j "parts")
+      pure (Json.bool (TddaVerif.GentestScript.wellOrdered parts))
   | "gt.names" => some do
       let bs ← asList asChars (← fld j "basenames")
       pure (ofList ofChars (testNames isAsciiAlnum {} bs))
